@@ -168,7 +168,7 @@ def validate(ctx, events, shards=14):
     slim = []
     for e in events:
         if e["ev"] == "end":
-            e2 = {k: e[k] for k in ("ev", "outcome", "same", "err", "calls", "nodbg", "nodbgErr", "nodbgSame", "scribble", "scribbleErr",
+            e2 = {k: e[k] for k in ("ev", "outcome", "same", "err", "calls", "cpos", "nodbg", "nodbgErr", "nodbgSame", "scribble", "scribbleErr",
                                     "scribbleSameSnapshots", "scribbleSameCalls", "fanout", "fanoutErr", "fanoutSameCalls") if k in e}
             slim.append(e2)
         elif e["ev"] == "begin":
